@@ -333,6 +333,10 @@ func init() {
 		Variant{Name: "Send to the initiator behind a process-wide semaphore", Property: "C06", File: "proxy/admin_stream_transfer.go",
 			Old: "\t\t\tif err = f.targetStreamServer.Send(resp); err != nil {\n\t\t\t\tif err != io.EOF {\n\t\t\t\t\tf.logger.Error(\"targetStreamServer.Send encountered error\", tag.Error(err))\n\t\t\t\t} else {\n\t\t\t\t\tf.logger.Debug(\"targetStreamServer.Send encountered EOF\", tag.Error(err))\n\t\t\t\t\tmetrics.AdminServiceStreamTerminatedCount.WithLabelValues(append(f.metricLabelValues, \"target\")...).Inc()\n\t\t\t\t}\n\t\t\t\treturn\n\t\t\t}\n\t\t\tmetrics.AdminServiceStreamReqCount.WithLabelValues(f.metricLabelValues...).Inc()\n\t\tdefault:\n\t\t\tf.logger.Error(\"sourceStreamClient.Recv encountered error\", tag.Error(serviceerror.NewInternal(fmt.Sprintf(\n\t\t\t\t\"StreamWorkflowReplicationMessages encountered unknown type: %T %v\", attr, attr,\n\t\t\t))))\n\t\t\treturn\n\t\t}\n\t}\n}\n\nfunc (f *StreamForwarder) forwardAcks(wg *sync.WaitGroup) {\n", New: "\t\t\tif err = f.sendToTarget(resp); err != nil {\n\t\t\t\tif err != io.EOF {\n\t\t\t\t\tf.logger.Error(\"targetStreamServer.Send encountered error\", tag.Error(err))\n\t\t\t\t} else {\n\t\t\t\t\tf.logger.Debug(\"targetStreamServer.Send encountered EOF\", tag.Error(err))\n\t\t\t\t\tmetrics.AdminServiceStreamTerminatedCount.WithLabelValues(append(f.metricLabelValues, \"target\")...).Inc()\n\t\t\t\t}\n\t\t\t\treturn\n\t\t\t}\n\t\t\tmetrics.AdminServiceStreamReqCount.WithLabelValues(f.metricLabelValues...).Inc()\n\t\tdefault:\n\t\t\tf.logger.Error(\"sourceStreamClient.Recv encountered error\", tag.Error(serviceerror.NewInternal(fmt.Sprintf(\n\t\t\t\t\"StreamWorkflowReplicationMessages encountered unknown type: %T %v\", attr, attr,\n\t\t\t))))\n\t\t\treturn\n\t\t}\n\t}\n}\n\nvar inFlight = make(chan struct{}, 64)\n\nfunc (f *StreamForwarder) sendToTarget(resp *adminservice.StreamWorkflowReplicationMessagesResponse) error {\n\tinFlight <- struct{}{}\n\tdefer func() { <-inFlight }()\n\treturn f.targetStreamServer.Send(resp)\n}\n\nfunc (f *StreamForwarder) forwardAcks(wg *sync.WaitGroup) {\n", Expect: "O6.17"},
 	)
+	addVariants(
+		Variant{Name: "cleanup tail of waitAndCleanup moved into a helper", Property: "C10", File: "transport/mux/session/managed_mux_session.go", Benign: true,
+			Old: "\ts.cancel()\n\t_ = s.session.Close()\n\t_ = s.conn.Close()\n\ts.state.Store(&MuxSessionInfo{State: Closed, Err: s.state.Load().Err})\n\tafterShutdown()\n}\n", New: "\tshutdown(s, afterShutdown)\n}\n\n// shutdown releases everything owned by the session and reports the exit.\nfunc shutdown(s *muxSession, afterShutdown func()) {\n\ts.cancel()\n\t_ = s.session.Close()\n\t_ = s.conn.Close()\n\ts.state.Store(&MuxSessionInfo{State: Closed, Err: s.state.Load().Err})\n\tafterShutdown()\n}\n"},
+	)
 	// ---- C06
 	ast := "proxy/admin_stream_transfer.go"
 	addVariants(
